@@ -392,7 +392,8 @@ class MiniInterp:
         if isinstance(st, ast.AugAssign):
             cur = self.ev(_as_load(st.target), env, fi)
             val = self.ev(st.value, env, fi)
-            self.assign(st.target, self.binop(st.op, cur, val, st), env, fi)
+            r = self.operator_method(st.op, cur, val, st, inplace=True)
+            self.assign(st.target, r if r is not NOTIMPL else self.binop(st.op, cur, val, st), env, fi)
             return
         if isinstance(st, ast.If):
             self.block(st.body if self.truth(self.ev(st.test, env, fi)) else st.orelse, env, fi)
@@ -955,6 +956,41 @@ class MiniInterp:
             raise PyRaise("TypeError")               # not iterable
         raise Unknown(f"iteration over {type(v).__name__}")
 
+    OPNAMES = {ast.Add: "add", ast.Sub: "sub", ast.Mult: "mul", ast.FloorDiv: "floordiv", ast.Mod: "mod", ast.Div: "truediv", ast.BitOr: "or",
+               ast.BitAnd: "and", ast.BitXor: "xor", ast.LShift: "lshift", ast.RShift: "rshift", ast.MatMult: "matmul", ast.Pow: "pow"}
+
+    def operator_method(self, op, a, b, node, inplace=False):
+        """a + b where an operand is an instance of a project class that defines the operator: __iadd__ (for +=), __add__, then the
+        right operand's __radd__, as Python does; NOTIMPL when no operand defines it"""
+        nm = self.OPNAMES.get(type(op))
+        if nm is None:
+            return NOTIMPL
+        tries = []
+        if isinstance(a, (Sym, SymDict)) and getattr(a, "cls", None) is not None:
+            if inplace:
+                tries.append((a, f"__i{nm}__", b))
+            tries.append((a, f"__{nm}__", b))
+        if isinstance(b, (Sym, SymDict)) and getattr(b, "cls", None) is not None:
+            tries.append((b, f"__r{nm}__", a))
+        defined = False
+        for obj, meth, other in tries:
+            m = obj.cls.find_method(meth)
+            if m is None:
+                continue
+            defined = True
+            r = self.call(self.prj.func(m.qual, raw=True), [other], {}, obj)
+            if r is not NOTIMPL:
+                return r
+        if defined:
+            raise PyRaise("TypeError", node)
+        for x in (a, b):
+            # an instance of a project class without the operator, combined with a plain value: Python's TypeError
+            if isinstance(x, Sym) and x.cls is not None and not x.open and not x.cls.external_bases() and \
+                    (self.plain(a) or self.plain(b) or (isinstance(a, Sym) and isinstance(b, Sym) and a.cls is not None and b.cls is not None)) \
+                    and not getattr(x, "tuple_order", None) and self.enum_members(x.cls) is None:
+                raise PyRaise("TypeError", node)
+        return NOTIMPL
+
     def binop(self, op, a, b, node):
         if isinstance(a, ISet) and isinstance(b, ISet):
             if isinstance(op, ast.BitOr):
@@ -968,6 +1004,9 @@ class MiniInterp:
             r = self.hook(self, "binop_div", a, b, None, node, None)
             if r is not NotImplemented:
                 return r
+        r = self.operator_method(op, a, b, node)
+        if r is not NOTIMPL:
+            return r
         if isinstance(a, (Sym, Lin)) or isinstance(b, (Sym, Lin)):
             if isinstance(op, (ast.Add, ast.Sub)):
                 return Lin.of(a).add(Lin.of(b), 1 if isinstance(op, ast.Add) else -1).simplify()
@@ -1197,6 +1236,8 @@ class MiniInterp:
         raise Unknown(f"expression {type(n).__name__}")
 
     def comp(self, n, env, fi):
+        if isinstance(n, ast.GeneratorExp):
+            return self.genexp(n, env, fi)
         out = []
         env2 = dict(env)
 
@@ -1224,6 +1265,28 @@ class MiniInterp:
         if isinstance(n, ast.DictComp):
             return dict(out)
         return _Iter(out)
+
+    def genexp(self, n, env, fi):
+        """a generator expression: the outermost iterable is evaluated now, everything else when the consumer asks for the next
+        element (a consumer that stops early - next(), any(), a loop with break - leaves the rest unevaluated)"""
+        env2 = dict(env)
+        first = self.ev(n.generators[0].iter, env2, fi)
+
+        def body(sink):
+            def rec(i):
+                if i == len(n.generators):
+                    sink.append(self.ev(n.elt, env2, fi))
+                    return
+                g = n.generators[i]
+                src = first if i == 0 else self.ev(g.iter, env2, fi)
+                for x in (src.lazy() if isinstance(src, LazyIter) else src.pull() if isinstance(src, _Iter) else self.iterate(src)):
+                    self.tick()
+                    self.assign(g.target, x, env2, fi)
+                    if all(self.truth(self.ev(c, env2, fi)) for c in g.ifs):
+                        rec(i + 1)
+            rec(0)
+        g_, close = thread_generator(body)
+        return LazyIter(g_, close)
 
     @staticmethod
     def is_opaque(v) -> bool:
@@ -1261,6 +1324,18 @@ class MiniInterp:
                         return self.compare(ast.Lt(), x, y)
                     return self.compare(ast.Gt(), x, y)
             return {ast.Lt: len(a) < len(b), ast.LtE: len(a) <= len(b), ast.Gt: len(a) > len(b), ast.GtE: len(a) >= len(b)}[type(op)]
+        if isinstance(op, (ast.Lt, ast.LtE, ast.Gt, ast.GtE)) and any(isinstance(x, Sym) and x.cls is not None for x in (a, b)):
+            names = {ast.Lt: ("__lt__", "__gt__"), ast.LtE: ("__le__", "__ge__"), ast.Gt: ("__gt__", "__lt__"), ast.GtE: ("__ge__", "__le__")}[type(op)]
+            for obj, meth, other in ((a, names[0], b), (b, names[1], a)):
+                if isinstance(obj, Sym) and obj.cls is not None:
+                    m = obj.cls.find_method(meth)
+                    if m is None and any(isinstance(d, ast.Name) and d.id == "total_ordering" or isinstance(d, ast.Attribute) and d.attr == "total_ordering"
+                                         for c in obj.cls.mro() for d in c.node.decorator_list):
+                        raise Unknown("functools.total_ordering")
+                    if m is not None:
+                        r = self.call(self.prj.func(m.qual, raw=True), [other], {}, obj)
+                        if r is not NOTIMPL:
+                            return self.truth(r)
         if isinstance(a, (Sym, Lin)) or isinstance(b, (Sym, Lin)):
             if self.hook:
                 r = self.hook(self, "compare", op, (a, b), None, None, None)
@@ -1424,6 +1499,29 @@ class MiniInterp:
                 m = b.find_method(attr)
                 if m is not None:
                     return BoundFunc(m, me)
+            if isinstance(me, SymDict):
+                # a class derived from dict: super() reaches the dictionary's own methods
+                if attr == "__init__":
+                    def dinit(a, k, me=me):
+                        if a:
+                            src = a[0]
+                            for kk, vv in (src.items() if isinstance(src, dict) else [tuple(self.iterate(x)) for x in self.iterate(src)]):
+                                dict.__setitem__(me, self.key(kk), vv)
+                        for kk, vv in k.items():
+                            dict.__setitem__(me, kk, vv)
+                        return None
+                    return PyFn("dict.__init__", dinit)
+                if attr in ("__getitem__", "__setitem__", "__contains__", "__delitem__", "__len__"):
+                    def dm(a, k, me=me, attr=attr):
+                        try:
+                            return getattr(dict, attr)(me, *([self.key(a[0])] + list(a[1:]) if a else []))
+                        except KeyError:
+                            raise PyRaise("KeyError", node)
+                    return PyFn("dict." + attr, dm)
+                if attr in SAFE_METHODS[dict]:
+                    return T("native", me, attr)
+            if attr in ("__init__", "__post_init__", "__init_subclass__", "__del__") and not cls_.external_bases():
+                return PyFn("object." + attr, lambda a, k: None)       # object's own: nothing to do
             return T("method", Sym("ext:super", _open=True), attr)
         if isinstance(obj, HashV) and attr in ("update", "hexdigest", "digest", "copy"):
             def hm(a, k, obj=obj, attr=attr):
@@ -2299,6 +2397,15 @@ class MiniInterp:
                         raise PyRaise("ValueError", node)
                     return _Iter(list(zip(*cols)))
                 return LazyIter(zip(*[self.pull(a) for a in args]))
+            if name in ("any", "all") and len(args) == 1 and isinstance(args[0], (LazyIter, _Iter)):
+                # short-circuit: elements behind the deciding one are never produced
+                for x in self.pull(args[0]):
+                    self.tick()
+                    if self.truth(x) == (name == "any"):
+                        if isinstance(args[0], LazyIter):
+                            args[0].close()
+                        return name == "any"
+                return name == "all"
             if name in ("min", "max", "sum", "any", "all", "abs", "int", "bool", "str", "float", "round", "divmod"):
                 a2 = [self.iterate(a) if isinstance(a, (_Iter, LazyIter)) else a for a in args]
                 if name in ("any", "all"):
@@ -2343,11 +2450,29 @@ class MiniInterp:
                 xs = self.iterate(args[0])
                 keyf = kwargs.get("key")
                 rev = bool(kwargs.get("reverse", False))
-                if keyf is None:
-                    return sorted(xs, reverse=rev)
-                keyed = [(self.apply(keyf, [x]), i, x) for i, x in enumerate(xs)]
-                keyed.sort(key=lambda t: t[0], reverse=rev)
-                return [x for _, _, x in keyed]
+                keys = list(xs) if keyf is None else [self.apply(keyf, [x]) for x in xs]
+                if all(self.plain(k) for k in keys):
+                    try:
+                        order = sorted(range(len(xs)), key=lambda i: keys[i], reverse=rev)
+                    except TypeError:
+                        raise PyRaise("TypeError", node)
+                    return [xs[i] for i in order]
+                # keys that are objects: Python's sort asks only `<` of them (stable; reverse keeps the order of equal elements)
+                import functools as _ft
+
+                def cmp(i, j):
+                    if self.compare(ast.Lt(), keys[i], keys[j]):
+                        return -1
+                    if self.compare(ast.Lt(), keys[j], keys[i]):
+                        return 1
+                    return 0
+                idx = list(range(len(xs)))
+                if rev:
+                    idx.reverse()
+                idx.sort(key=_ft.cmp_to_key(cmp))
+                if rev:
+                    idx.reverse()
+                return [xs[i] for i in idx]
             if name == "reversed":
                 return _Iter(list(reversed(self.iterate(args[0]))))
             if name == "filter":
